@@ -24,8 +24,8 @@ PROP = {
             ["hop-enum-b"], race=True, env={"VERIF_C19_ENUM": "b"},
             timeout_quick=420, timeout_thorough=5400),
         job("udphop", "extras", "./transport/udphop/", "udphop",
-            ["harness/extras/transport/udphop/c19_hop_test.go"], "^TestVerifC19Hop(Addr|Long|Race)$",
-            ["hop-addr", "hop-long", "hop-race"], race=True,
+            ["harness/extras/transport/udphop/c19_hop_test.go"], "^TestVerifC19Hop(Addr|Long|Race|Idle)$",
+            ["hop-addr", "hop-long", "hop-race", "hop-idle"], race=True,
             timeout_quick=420, timeout_thorough=5400),
     ],
     "min_events": 100000,
@@ -50,7 +50,11 @@ PROP = {
              "stale timeout results are read, and the full write/inbound round (previous AND current socket deliver) must hold again; then Close (optionally with a reader blocked, with packets queued, at the "
              "very instant of the next hop, twice): every socket ever created closed exactly once, empty-queue reads "
              "fail without blocking, packets injected after Close never returned, every WriteTo fails, no socket "
-             "is opened later. hop-long: random failure subsets (sparse, dense, bursts) over 9..200 hops. "
+             "is opened later. hop-idle: the caller sets a read deadline in the past and stops reading (receive queue fills with 1024 timeout results, "
+             "receive loops park); every subset of failing creations for (hops before, hops after) in {0,1,2}x{2,3,4} (196 histories per pass); "
+             "each later hop attempt must come within Max, the connection mutex must be free at quiescence (else, if still held 3 intervals "
+             "later: hop-or-close-never-returns), census/writes as above, then Close must return, close every socket once, writes and all "
+             "reads fail without blocking. hop-long: random failure subsets (sparse, dense, bursts) over 9..200 hops. "
              "hop-race: readers, writers, deadline/buffer setters, injector and concurrent Close calls placed on "
              "the same virtual instants as the hops, under the race detector, with census checks at every "
              "quiescent point. A history is non-trivial when it performed at least one hop attempt and reached "
@@ -63,7 +67,9 @@ PROP = {
         "sockets are fakes behind ListenUDPFunc (the injection point the package offers); kernel UDP behaviour is not exercised",
         "fake sockets honour read deadlines on the virtual clock like a UDP socket (expired deadline: every read fails at once with a timeout net.Error; a deadline change wakes a blocked read); write deadlines and buffer sizes are only recorded",
         "after an expired read deadline is extended/cleared the delivery clause is checked with packets that arrive once the caller has read the stale timeout results (<= queue size + 2); a packet arriving while the 1024-slot receive queue is still full of such results takes the code's documented queue-full drop path and is recorded as an observation (hop-long.probe_* counters), not judged",
-        "read deadlines are never left expired across a hop or Close, and the race part only uses deadlines that do not expire",
+        "outside hop-idle read deadlines are never left expired across a hop or Close; the race part only uses deadlines that do not expire",
+        "hop-idle decides 'never returns' logically inside the bubble: no hop attempt within Max, or the connection mutex (read through the package-internal field) held at two quiescent points three maximal intervals apart; WriteTo/Close are only invoked when the mutex is free",
+        "receive goroutines left parked on the full queue after Close (a goroutine leak, no socket involved) are not judged; the harness empties the queue during cleanup",
         "a failed socket creation is modelled as ListenUDPFunc returning (nil, error)",
         "WriteTo is called with the hop connection's own address (what quic-go passes)",
         "strings whose validity the documentation leaves open are not judged for accept/reject",
